@@ -635,7 +635,28 @@ func c15ContinueWakes(c *Ctx, r *Result, dbgIface *types.Interface) {
 				}
 			}
 		})
+		// the lookup and the test of `running` may sit in a helper returning (state, found-and-suspended)
+		var suspendedV ssa.Value
 		if okV == nil {
+			allInstrs(fn, func(in ssa.Instruction) {
+				x, ok := in.(*ssa.Extract)
+				if !ok || suspendedV != nil {
+					return
+				}
+				call, ok := x.Tuple.(*ssa.Call)
+				if !ok {
+					return
+				}
+				if b, isB := x.Type().Underlying().(*types.Basic); !isB || b.Kind() != types.Bool {
+					return
+				}
+				h := call.Call.StaticCallee()
+				if h != nil && c.inModule(h) && c15TrueMeansSuspended(h, x.Index, fStates, fRunning) {
+					suspendedV = x
+				}
+			})
+		}
+		if okV == nil && suspendedV == nil {
 			continue
 		}
 		n++
@@ -656,6 +677,16 @@ func c15ContinueWakes(c *Ctx, r *Result, dbgIface *types.Interface) {
 			}
 		}
 		o.AtReturn = func(st *PState, ret *ssa.Return) {
+			if suspendedV != nil {
+				if st.Get(suspendedV, o) != AvNonNil {
+					return
+				}
+				exits++
+				if !st.Flags["woke"] {
+					bad = true
+				}
+				return
+			}
 			if st.Get(okV, o) != AvNonNil {
 				return
 			}
@@ -689,6 +720,56 @@ func c15ContinueWakes(c *Ctx, r *Result, dbgIface *types.Interface) {
 		}
 	}
 	r.Floor("R15i", n, 1)
+}
+
+// c15TrueMeansSuspended: wherever the idx-th (boolean) result of h can be true, the thread was found in the
+// table of interrogation states and its `running` flag was read as false.
+func c15TrueMeansSuspended(h *ssa.Function, idx int, fStates, fRunning *types.Var) bool {
+	var okV ssa.Value
+	var runLoads []ssa.Value
+	allInstrs(h, func(in ssa.Instruction) {
+		switch x := in.(type) {
+		case *ssa.Extract:
+			if lk, ok := x.Tuple.(*ssa.Lookup); ok && x.Index == 1 {
+				if ld, ok := lk.X.(*ssa.UnOp); ok && fieldVar(ld.X) == fStates {
+					okV = x
+				}
+			}
+		case *ssa.UnOp:
+			if x.Op == token.MUL && fieldVar(x.X) == fRunning {
+				runLoads = append(runLoads, x)
+			}
+		}
+	})
+	if okV == nil || len(runLoads) == 0 {
+		return false
+	}
+	good, seen := true, 0
+	o := &PathOracle{}
+	o.AtReturn = func(st *PState, ret *ssa.Return) {
+		if idx >= len(ret.Results) {
+			good = false
+			return
+		}
+		s2 := st.clone()
+		if !s2.refineCond(ret.Results[idx], true, o) {
+			return // false on this path
+		}
+		seen++
+		if s2.Get(okV, o) != AvNonNil {
+			good = false
+		}
+		susp := false
+		for _, rl := range runLoads {
+			if s2.Get(rl, o) == AvNil {
+				susp = true
+			}
+		}
+		if !susp {
+			good = false
+		}
+	}
+	return ExplorePaths(h, o) && good && seen > 0
 }
 
 // ---- R16h: the end of a scope chain is nil --------------------------------------------------------
